@@ -2,10 +2,12 @@
    Statements only.  Reading a number spelling is std's correctly rounded str::parse (the
    model's dbl / sgl); the float PRINTERS (lexical, serde_json's Display) appear as
    universally quantified functions constrained by explicit premises. *)
-From JsonSyntax Require Import Base.Prelude Base.Value Base.Float64 Spec.NumSpelling Spec.SerdeTyped
+From JsonSyntax Require Import Base.Prelude Base.Value Base.Float64 Spec.NumSpelling Spec.Multimap Spec.SerdeTyped
+  Spec.SerdeShape32 Spec.SerdeDupKeys
   Model.Serde Proofs.SerdeProofs Proofs.SerdeShape Proofs.SerdeViaJson
   Spec.EcmaNumber Proofs.Float64Proofs Proofs.NumberProofs Proofs.NearestDouble Proofs.Float32Proofs Proofs.Float32Total
-  Proofs.NumberTotal Proofs.FloatGenMinimal.
+  Proofs.NumberTotal Proofs.FloatGenMinimal
+  Proofs.Float32Widen Proofs.SerdeShape32 Proofs.SerdeDupKeys.
 From Coq Require Import Reals SpecFloat.
 From Flocq Require Import Core BinarySingleNaN.
 Local Open Scope Z_scope.
@@ -96,7 +98,7 @@ Print Assumptions C16_nonfinite.
 (* same JSON shape as serde_json::to_value (model ser_sj): structure, strings, booleans
    exact, object members up to order, numbers by value -- for data without f32 leaves
    (json-syntax spells an f32 with its shortest digits, serde_json widens it to f64 first;
-   for those the shapes agree at binary32 precision, which the correspondence run checks) *)
+   for those the shapes agree at binary32 precision: C16_shape32 below) *)
 Theorem C16_shape :
   forall (E : env) (fmt_f64 fmt_f32 : Z -> list N),
   (forall b, f64_wf b = true -> f64_finite b = true -> num_key false (fmt_f64 b) = key_of_f64 b) ->
@@ -165,3 +167,138 @@ Print Assumptions C16_f32_printer_round_trips.
 Print Assumptions C16_f32_shortest.
 Print Assumptions C16_f32_printer_digits.
 Print Assumptions C16_double_rounding_differs.
+
+(* ---------------------------------------------------------------------------------------
+   The shape clause for data WITH f32 leaves (Spec/SerdeShape32.v): shape32 / shape32_sj are
+   shape_of / shape_of_sj with every number replaced by the binary32 nearest to the real it
+   denotes (a json-syntax spelling through sgl, a serde_json integer / double through the
+   `as f32` cast).  Premises: an f32's printed spelling reads back, correctly rounded at
+   binary32, as that f32 (met by the reference printer: C16_f32_printer_round_trips); every
+   f64 leaf b of the datum is not separated from its printed spelling by a binary32 rounding
+   boundary (f64_agrees32; no such premise for data without f64 leaves; it cannot be dropped:
+   C16_shape32_f64_midpoint).  serde_json's side holds the widened double itself, so no
+   premise about its printer is needed.  The key fact is C16_widening_exact.
+   --------------------------------------------------------------------------------------- *)
+Theorem C16_widening_exact : forall b, f32_wf b = true -> f32_finite b = true ->
+  f32_of_f64 (f64_of_f32 b) = b.
+Proof. exact f32_of_f64_of_f32. Qed.
+
+Theorem C16_shape32 :
+  forall (E : env) (fmt_f64 fmt_f32 : Z -> list N),
+  (forall b, f32_wf b = true -> f32_finite b = true -> sgl (fmt_f32 b) = sf32_of_bits b) ->
+  forall d, (exists t, has_type E d t = true) -> finite_floats d = true -> known_class d = false ->
+  f64_leaves_agree32 fmt_f64 d = true ->
+  exists v j, tser fmt_f64 fmt_f32 d = Ok v /\ ser_sj d = Ok j /\ shape32 v = shape32_sj j.
+Proof. exact shape32_SH. Qed.
+
+Theorem C16_shape32_f32_only :
+  forall (E : env) (fmt_f64 fmt_f32 : Z -> list N),
+  (forall b, f32_wf b = true -> f32_finite b = true -> sgl (fmt_f32 b) = sf32_of_bits b) ->
+  forall d, (exists t, has_type E d t = true) -> finite_floats d = true -> known_class d = false ->
+  no_f64 d = true ->
+  exists v j, tser fmt_f64 fmt_f32 d = Ok v /\ ser_sj d = Ok j /\ shape32 v = shape32_sj j.
+Proof. exact shape32_f32_only. Qed.
+
+(* the same for the model's own functions shape_of true / shape_of_sj true (numbers read as
+   Value::deserialize_f32 does: integer spellings through the integer cast) -- what the
+   correspondence run evaluates as sh32 -- under the f32 premise of C16_roundtrip *)
+Theorem C16_shape32_model :
+  forall (E : env) (fmt_f64 fmt_f32 : Z -> list N),
+  (forall b, f32_wf b = true -> f32_finite b = true -> de_f32 (fmt_f32 b) = f32_norm b) ->
+  forall d, (exists t, has_type E d t = true) -> finite_floats d = true -> known_class d = false ->
+  (forall b, In b (f64_leaves d) -> num_key true (fmt_f64 b) = key_of_float true b) ->
+  exists v j, tser fmt_f64 fmt_f32 d = Ok v /\ ser_sj d = Ok j /\
+              shape_of true v = shape_of_sj true j.
+Proof. exact shape32m_SH. Qed.
+
+(* the spelling of an integer reads, at binary32, as the `as f32` cast of the integer *)
+Theorem C16_sgl_of_integer : forall z, sgl (z_dec z) = round32 (sf_of_Z z).
+Proof. exact sgl_z_dec. Qed.
+
+(* non-vacuity: (0.1f32, 0.1f64, -7i8).  json-syntax writes 0.1 for the f32, serde_json
+   0.10000000149011612: the exact shapes differ, the binary32 shapes agree *)
+Example C16_shape32_example :
+  has_type [] sh32_d sh32_t = true /\ finite_floats sh32_d = true /\ known_class sh32_d = false /\
+  f64_leaves_agree32 fmt_f64_shortest sh32_d = true /\
+  fmt_f32_ref 0x3DCCCCCD = s2l "0.1" /\
+  fmt_sj_ref (f64_of_f32 0x3DCCCCCD) = s2l "0.10000000149011612" /\
+  exists v j, tser fmt_f64_shortest fmt_f32_ref sh32_d = Ok v /\ ser_sj sh32_d = Ok j /\
+              shape_eqb (shape_of false v) (shape_of_sj false j) = false /\
+              shape32 v = shape32_sj j /\ shape_of true v = shape_of_sj true j.
+Proof. exact shape32_example. Qed.
+
+(* the f64 premise is necessary: the double 0x3ab5c87fb0000000 (spelt 7.038531e-26) is an
+   exact binary32 midpoint *)
+Example C16_shape32_f64_midpoint :
+  has_type [] sh32_mid TyF64 = true /\ finite_floats sh32_mid = true /\ known_class sh32_mid = false /\
+  fmt_f64_shortest 0x3ab5c87fb0000000 = s2l "7.038531e-26" /\
+  f64_leaves_agree32 fmt_f64_shortest sh32_mid = false /\
+  exists v j, tser fmt_f64_shortest fmt_f32_ref sh32_mid = Ok v /\ ser_sj sh32_mid = Ok j /\
+              shape_of false v = shape_of_sj false j /\
+              shape32 v = ShNumber (key32 0x15ae43fd) /\ shape32_sj j = ShNumber (key32 0x15ae43fe) /\
+              shape32 v <> shape32_sj j.
+Proof. exact shape32_f64_midpoint. Qed.
+
+(* ---------------------------------------------------------------------------------------
+   A JSON object with a repeated key handed to from_value.
+   Map targets (BTreeMap / HashMap): every entry is deserialized and inserted, the last value
+   of a key is kept -- so the result is the result on the object with the earlier occurrences
+   removed (drop_earlier), and the keys of the result are pairwise different.
+   Struct targets and struct variants: a declared field occurring twice is an error
+   (serde-derive's `duplicate field`); an enum object must have exactly one entry.
+   --------------------------------------------------------------------------------------- *)
+Theorem C16_map_last_wins : forall (E : env) fuel kt t es d,
+  de E fuel (TyMap kt t) (VObj es) = Ok d ->
+  de E fuel (TyMap kt t) (VObj (drop_earlier es)) = Ok d.
+Proof. exact map_last_wins. Qed.
+
+Theorem C16_map_keys_distinct : forall (E : env) fuel kt t es xs,
+  de E fuel (TyMap kt t) (VObj es) = Ok (SdMap xs) ->
+  ForallOrdPairs (fun a b => key_eqb (fst a) (fst b) = false) xs.
+Proof. exact map_keys_distinct. Qed.
+
+Theorem C16_struct_dup_field : forall (E : env) fuel n fts es f d,
+  assoc n E = Some (DefStruct fts) -> In f (map fst fts) ->
+  (2 <= length (m_get_entries es f))%nat ->
+  de E fuel (TyNamed n) (VObj es) <> Ok d.
+Proof. exact struct_dup_field. Qed.
+
+Theorem C16_struct_variant_dup_field : forall (E : env) fuel n vs v fts es f d,
+  assoc n E = Some (DefEnum vs) -> assoc v vs = Some (VStruct fts) -> In f (map fst fts) ->
+  (2 <= length (m_get_entries es f))%nat ->
+  de E fuel (TyNamed n) (VObj [(v, VObj es)]) <> Ok d.
+Proof. exact struct_variant_dup_field. Qed.
+
+Theorem C16_enum_repeated_variant_key : forall (E : env) fuel n vs e1 e2 r d,
+  assoc n E = Some (DefEnum vs) -> de E fuel (TyNamed n) (VObj (e1 :: e2 :: r)) <> Ok d.
+Proof. exact enum_repeated_variant_key. Qed.
+
+Example C16_dup_examples :
+  has_repeated_key dup_obj = true /\
+  drop_earlier dup_obj = [(s2l "b", VNum (s2l "2")); (s2l "a", VNum (s2l "3"))] /\
+  from_value_ref dup_env 3 (TyMap KStr (TyInt I32)) (VObj dup_obj)
+    = Ok (SdMap [(SdStr (s2l "b"), SdInt I32 2); (SdStr (s2l "a"), SdInt I32 3)]) /\
+  from_value_ref dup_env 3 (TyMap KStr (TyInt I32)) (VObj [(s2l "a", VBool true); (s2l "a", VNum (s2l "3"))]) = Err tt /\
+  from_value_ref dup_env 3 (TyMap (KInt U8) TyBool)
+    (VObj [(s2l "1", VBool true); (s2l "+1", VBool false); (s2l "2", VBool true); (s2l "01", VBool true)])
+    = Ok (SdMap [(SdInt U8 2, SdBool true); (SdInt U8 1, SdBool true)]) /\
+  from_value_ref dup_env 3 (TyNamed (s2l "P")) (VObj [(s2l "x", VNum (s2l "1")); (s2l "x", VNum (s2l "2"))]) = Err tt /\
+  from_value_ref dup_env 3 (TyNamed (s2l "P")) (VObj [(s2l "u", VNull); (s2l "x", VNum (s2l "1")); (s2l "u", VNull)])
+    = Ok (SdStruct (s2l "P") [(s2l "x", SdInt I32 1); (s2l "o", SdNone)]) /\
+  from_value_ref dup_env 4 (TyNamed (s2l "V")) (VObj [(s2l "S", VObj [(s2l "x", VNum (s2l "1")); (s2l "x", VNum (s2l "1"))])]) = Err tt /\
+  from_value_ref dup_env 4 (TyNamed (s2l "V")) (VObj [(s2l "A", VNull); (s2l "A", VNull)]) = Err tt.
+Proof. exact dup_examples. Qed.
+
+Print Assumptions C16_widening_exact.
+Print Assumptions C16_shape32.
+Print Assumptions C16_shape32_f32_only.
+Print Assumptions C16_shape32_model.
+Print Assumptions C16_sgl_of_integer.
+Print Assumptions C16_shape32_example.
+Print Assumptions C16_shape32_f64_midpoint.
+Print Assumptions C16_map_last_wins.
+Print Assumptions C16_map_keys_distinct.
+Print Assumptions C16_struct_dup_field.
+Print Assumptions C16_struct_variant_dup_field.
+Print Assumptions C16_enum_repeated_variant_key.
+Print Assumptions C16_dup_examples.
